@@ -459,7 +459,9 @@ impl C16 {
             }
             dress.push(l);
         }
-        let fault = if legacy || g.bool(0.2) { 0 } else { g.int(1, N_FAULTS as i64) as u16 };
+        // legacy-layout cases: half valid, half carrying a fault (the legacy file must be
+        // rejected like the current layout)
+        let fault = if g.bool(if legacy { 0.5 } else { 0.2 }) { 0 } else { g.int(1, N_FAULTS as i64) as u16 };
         NetCase { skeleton, dress, fault, at: g.usize(1, n_links), aux: g.usize(0, 997), route: g.int(0, 4) as u8, legacy }
     }
 
@@ -524,6 +526,27 @@ impl C16 {
         let has_nonfinite = matches!(case.fault, 19 | 20 | 27 | 28 | 37 | 46) || (matches!(case.fault, 32 | 44 | 45) && serde_json::to_string(&Network(links.clone())).map(|s| s.contains("null")).unwrap_or(true));
         let route = if has_nonfinite && (case.route == 1 || case.route == 4) { case.route + 1 } else { case.route } % 5;
         let route = if has_nonfinite && (route == 1 || route == 4) { 2 } else { route };
+        if case.legacy {
+            // the same faulty network as a legacy-layout file
+            let json = !has_nonfinite && route % 2 == 1;
+            if let Some(txt) = legacy_text(&links, json) {
+                let p = tmp_path(if json { "oldf.json" } else { "oldf.yaml" });
+                if std::fs::write(&p, &txt).is_ok() {
+                    cx.label("fault_in_legacy_layout_file");
+                    let r = catch(|| Network::from_file(&p).map_err(|e| format!("{e:#}")));
+                    let _ = std::fs::remove_file(&p);
+                    match r {
+                        Err(pr) => cx.fail(format!("C16|panic|{name}:legacy-file:{}", pr.class()), format!("fault {name} at link {k}: {}", pr.msg)),
+                        Ok(Ok(_)) => {
+                            if must_err {
+                                cx.fail(format!("C16|accept|{name}:legacy-file"), format!("fault {name} at link {k} of {} was accepted from a legacy-layout {} file", n - 1, if json { "JSON" } else { "YAML" }));
+                            }
+                        }
+                        Ok(Err(_)) => {}
+                    }
+                }
+            }
+        }
         match load(&links, route) {
             Err(p) => cx.fail(format!("C16|panic|{name}:{}", p.class()), format!("fault {name} at link {k} (route {route}): {} at {}:{}", p.msg, p.file, p.line)),
             Ok(Ok(_)) => {
@@ -558,7 +581,7 @@ impl Property for C16 {
     }
     crate::typed_property!(C16, NetCase);
     fn rule(&self) -> String {
-        "valid network = corridor skeleton (2-5 stages, flips, alternates, optional lockouts) dressed per link with 2-7 elevation points, 0 or 2-6 heading points, 0-3 catenary sections, single speed set or per-type map with gates; about 45 % stay valid (all legacy-layout cases plus a fifth of the rest) and must be accepted by validate(), from_json, from_yaml and from_file(.yaml/.json) and reload equal (25 % additionally written in the legacy list-of-OldSpeedSet layout as YAML and JSON files and must load to the identical network); the others receive exactly one of 46 fault operators (dummy entry, idx_curr, flip, next/prev reciprocity, alternates, coincident switch points, references outside the network, length, elevation / heading / speed / catenary / gate faults incl. NaN and infinity) at a generated link and must come back as Err through the generated entry point — never Ok, never an unwind. Non-trivial: any mutant, or a valid network with >= 4 links and a switch".into()
+        "valid network = corridor skeleton (2-5 stages, flips, alternates, optional lockouts) dressed per link with 2-7 elevation points, 0 or 2-6 heading points, 0-3 catenary sections, single speed set or per-type map with gates; about 30 % stay valid (half of the legacy-layout cases, a fifth of the rest) and must be accepted by validate(), from_json, from_yaml and from_file(.yaml/.json) and reload equal (25 % additionally written in the legacy list-of-OldSpeedSet layout as YAML and JSON files and must load to the identical network); the others receive exactly one of 46 fault operators (dummy entry, idx_curr, flip, next/prev reciprocity, alternates, coincident switch points, references outside the network, length, elevation / heading / speed / catenary / gate faults incl. NaN and infinity) at a generated link and must come back as Err through the generated entry point (and, for legacy-layout cases, from the legacy-layout file as well) — never Ok, never an unwind. Non-trivial: any mutant, or a valid network with >= 4 links and a switch".into()
     }
     fn assumptions(&self) -> Vec<String> {
         vec![
